@@ -195,7 +195,20 @@ class Body:
 
 class Facts:
     def __init__(self, path):
-        self.j = json.load(open(path))
+        txt = open(path).read()
+        # an inherent impl block that lives in another module than its type is printed `module::<impl Type<G>>::method`; where the
+        # block lives is not an anchor: use the spelling of the type's own module, `Type::<G>::method`
+        import re
+        if '::<impl ' in txt:
+            local_types = {a['path'] for a in json.loads(txt)['adts']}
+            txt = re.sub(r'(?<![\w:])[\w:]+::<impl ([\w:]+)(<[^<>]*>)?>::',
+                         lambda m: (m.group(1) + ('::' + m.group(2) if m.group(2) else '') + '::') if m.group(1) in local_types else m.group(0), txt)
+        if '::<impl ' in txt:
+            # likewise a trait impl written in another module: `module::<impl Trait for Type>::m` is `<Type as Trait>::m`
+            local_types = {a['path'] for a in json.loads(txt)['adts']}
+            txt = re.sub(r"(?<![\w:])[\w:]+::<impl ((?:[^<>]|<[^<>]*>)+?) for ((?:[^<>]|<[^<>]*>)+?)>::",
+                         lambda m: ('<%s as %s>::' % (m.group(2), m.group(1))) if m.group(2).split('<', 1)[0] in local_types else m.group(0), txt)
+        self.j = json.loads(txt)
         self.field_renames = field_renames(self.j['adts'])
         self.fields_renamed = apply_field_renames(self.j, self.field_renames)
         from . import inline
